@@ -313,6 +313,9 @@ func extractTarGz(tarGzFile, dest string) error {
 			} else if !fi.Mode().IsRegular() {
 				return fmt.Errorf("%s: hard link target %q is not a regular file", target, header.Linkname)
 			}
+			if source == target {
+				continue // its own first name once more ("./a" -> "a"): nothing to do
+			}
 			if err := os.MkdirAll(filepath.Dir(target), 0755); err != nil {
 				return err
 			}
